@@ -230,8 +230,20 @@ func (C19) Generate(c *Ctx, r *Rand, index int) *Scenario {
 			// -n together with a file must be refused
 			g := &DocGen{R: r.Fork("doc"), Plain: true}
 			sc.Files = []File{{Name: "f1.yaml", Docs: []string{g.Doc(DocID(r, 0, 0)).YAML()}, Mode: 0644}}
-			sc.Argv = append(sc.Argv, "f1.yaml")
+			switch rs.Intn(4) {
+			case 0:
+				sc.Argv = append(sc.Argv, "f1.yaml")
+			case 1:
+				sc.Argv = []string{"-n", "--expression=" + expr, "f1.yaml"}
+			case 2:
+				sc.Files = append(sc.Files, File{Name: "e.yq", Data: Bytes(expr), Mode: 0644})
+				sc.Argv = []string{"-n", "--from-file=e.yq", "f1.yaml"}
+			default:
+				sc.Argv = []string{"-n", "f1.yaml"}
+			}
 			sc.Meta["n_with_file"] = true
+			sc.Meta["freeze_data"] = true
+			sc.Meta["keep_flags"] = []any{"-n", "--expression=" + expr, "--from-file=e.yq"}
 		}
 	case "auto-format":
 		fi := Pick(rs, InputFormats[:8])
@@ -382,6 +394,17 @@ func (C19) Generate(c *Ctx, r *Rand, index int) *Scenario {
 	case "nul-output":
 		opts.PlainOnly, opts.AllowStdin, opts.Format = true, false, "yaml"
 		sc.Files = GenMultiFiles(r.Fork("files"), opts)
+		if rs.Chance(1, 5) {
+			// a NUL inside a result cannot be told from the separator: must be refused
+			sc.Files = []File{{Name: "f1.yaml", Docs: []string{"id: " + DocID(r, 0, 0) + "\ns: \"a\\0b\"\nm:\n  k: \"x\\0y\"\nl:\n  - \"p\\0q\"\n"}, Mode: 0644}}
+			nc := Pick(rs, [][]string{{"-o=shell", ".m"}, {"-o=props", ".m"}, {"-o=csv", ".l"}, {"-o=tsv", ".l"}, {"-r", ".s"}, {"-o=props", "."}, {"-o=json", ".m"}, {"-o=yaml", ".s"}})
+			sc.Argv = append([]string{"-0"}, append(nc, "f1.yaml")...)
+			sc.Meta["expr"] = nc[len(nc)-1]
+			sc.Meta["nul_inside"] = true
+			sc.Meta["freeze_data"] = true
+			sc.Meta["keep_flags"] = []any{"-0", nc[0]}
+			return sc
+		}
 		combo := Pick(rs, [][]string{
 			{"-o=json", "-I0", "."}, {"-o=json", "-I0", ".id"}, {"-o=json", "-I0", ".c"}, {"-o=props", ".c"}, {"-o=csv", ".d"}, {"-o=tsv", ".d"}, {"-o=xml", ".c"},
 			{"-N", ".id"}, {"-N", ".a"}, {"-N", ".c"}, {"-o=json", ".c"}, {"-o=csv", ".e"}, {"-o=lua", ".c"}, {"-o=shell", ".c"}, {"-o=base64", ".b"},
@@ -830,6 +853,13 @@ func (C19) Judge(c *Ctx, sc *Scenario) []Violation {
 			add("O19.9", "stdout encoder-domain", fmt.Sprintf("encoder refused the result but printed %q", clip(out.Stdout, 200)))
 		}
 	case "nul-output":
+		if sc.MetaBool("nul_inside") {
+			nontrivial = true
+			if out.Exit == 0 && bytes.Count(out.Stdout, []byte{0}) > 1 {
+				add("O19.9", "nul-inside-result", fmt.Sprintf("-0: a result that contains NUL was written as is (%d NUL bytes for one result), exit 0: %q", bytes.Count(out.Stdout, []byte{0}), clip(out.Stdout, 200)))
+			}
+			return vs
+		}
 		if out.Exit != 0 {
 			return vs
 		}
